@@ -124,6 +124,26 @@ Proof.
 Qed.
 Print Assumptions C05_styling_only_ops_keep_chars.
 
+(* (2b) rich/highlighter.py: Highlighter.__call__ on a Text.  For EVERY highlighter -- the matcher is an oracle
+   (ReprHighlighter's regexes, a user's highlight()) of which only "its spans lie inside the text it is given"
+   is assumed -- the result is a consistent Text with the same characters, length and metadata (base style,
+   justify, overflow, no_wrap, end, tab_size), every existing span kept in place and order, and the matches
+   appended: in reference terms, exactly "append these spans".  (The histories' OHighlighter operation, the
+   executable instance with character-class patterns, str and non-text arguments, is inside C05_ops_refine.) *)
+Theorem C05_highlighter_call : forall (matcher : str -> list span),
+  (forall p, Within (zlen p) (matcher p)) -> forall t, Consistent t ->
+  abs (hl_oracle matcher t) = r_add_spans (abs t) (matcher (plain t)) /\ Consistent (hl_oracle matcher t) /\
+  plain (hl_oracle matcher t) = plain t /\ len (hl_oracle matcher t) = len t /\
+  tmeta (hl_oracle matcher t) = tmeta t /\ spans (hl_oracle matcher t) = spans t ++ matcher (plain t).
+Proof. exact hl_oracle_spec. Qed.
+Print Assumptions C05_highlighter_call.
+Example C05_highlighter_nonvacuous :
+  let t := ctor FIXED (lit "x=12 y") (mkMeta 3 1 2 0 [] (Some 4)) [(0, 1, 5)] in
+  step FIXED t (OHighlighter [(lit "0123456789", 2); (lit "xy", 1)] HText)
+  = mkText (lit "x=12 y") 6 [(0, 1, 5); (2, 4, 2); (0, 1, 1); (5, 6, 1)] (mkMeta 3 1 2 0 [] (Some 4))
+  /\ apply FIXED (OHighlighter [] HOther) t = Crash K_TypeError.
+Proof. vm_compute. split; reflexivity. Qed.
+
 (* (3) refutations: the code as found.  `only f` = every fix applied except f, so each witness also
    shows that the corresponding patch is necessary.  All witnesses are inside the theorem's domain. *)
 Definition violates (fx : fixes) (s : str) (sps : list span) (ops : list op) : Prop :=
